@@ -1,4 +1,4 @@
-use super::{DecoderError, NeedMore};
+use super::DecoderError;
 use crate::ext::Protocol;
 
 use bytes::Bytes;
@@ -63,7 +63,11 @@ impl Header<Option<HeaderName>> {
 impl Header {
     pub fn new(name: Bytes, value: Bytes) -> Result<Header, DecoderError> {
         if name.is_empty() {
-            return Err(DecoderError::NeedMore(NeedMore::UnexpectedEndOfStream));
+            // An empty field name is invalid no matter how much more input
+            // arrives. Reporting it as `NeedMore` made the caller resume with
+            // the next CONTINUATION fragment after the (already consumed)
+            // field had been silently dropped.
+            return Err(DecoderError::InvalidUtf8);
         }
         if name[0] == b':' {
             match &name[1..] {
